@@ -4,7 +4,7 @@ manifest can never drift from what ./run supports)."""
 import json, subprocess, os
 
 HOOK_COMMITS = ["61b94ce", "8f421be"]
-FIX_COMMITS = ["a51fb22", "b0c8ea5", "98c1f4b", "e663d4c", "32aebe9", "fc86303", "229945c"]
+FIX_COMMITS = ["a51fb22", "b0c8ea5", "98c1f4b", "e663d4c", "32aebe9", "fc86303", "229945c", "8af08bf", "bea63fc"]
 
 # id -> (engine, category, technique, text, note, design_ref)
 CHECKS = {}
@@ -72,6 +72,12 @@ add("C10", "E", "exploration",
     "Every builder script up to the depth is built, serialized to bytes and ints, read back and compared through items(), item(type,id) over the whole key alphabet (ordinal and UUID types) and crc(); copies produced by read_with_delta likewise; the received copy is recycled and the UUID numbering observed through the next serialization.",
     "Trusted: small alphabets (5 types, 3 ids, 3 data vectors); limits by linear families.",
     "DESIGN.md 3/C10")
+
+add("C11", "E", "exploration",
+    "bounded exhaustive enumeration of parser inputs (all short int sequences, all single/neighbouring-double field corruptions, truncations, hostile structures) + all pairs of a pool of accepted snapshots and deltas; allocation measured by a counting allocator",
+    "Every input of the finite families is parsed as snapshot and as delta in int and byte form; every accepted delta is applied to every accepted snapshot of a pool and Delta::create runs between all pool pairs; oracle: returns, no panic, allocation <= 64 x input + 64 KiB, accepted => <=1024 items and <=64 KiB, write/read equality, follow-up operations (items, item, crc, write, recycle + add_item).",
+    "Trusted: counting global allocator with thread-local counters; pool limited to ~330 snapshots x ~320 deltas.",
+    "DESIGN.md 3/C11")
 
 NOT_YET = {}
 
